@@ -104,9 +104,13 @@ def connected_ws(after=b"", cuts=None, timeout=None, on_bytes=None, on_open=None
     return w, conn, peer
 
 
-def in_sim(fn, *args, strategy=None, horizon=3600.0, watchdog=30.0):
-    """Run fn inside a fresh simulation; returns (result, sched)."""
+def in_sim(fn, *args, strategy=None, horizon=3600.0, watchdog=30.0, batch_horizon=3600.0):
+    """Run fn inside a fresh simulation; returns (result, sched).  With
+    batch_horizon (default) the virtual horizon is restarted at every new
+    connection, so that a batch of independent cases does not add up to a
+    spurious 'not terminated'."""
     s = sched.Sched(strategy=strategy, horizon=horizon, watchdog=watchdog)
+    s.batch_horizon = batch_horizon
     r = s.run(fn, *args)
     return r, s
 
